@@ -115,7 +115,7 @@ def check_machine(ctx, prog, f):
     ctx.info['configurations'] = len(m.configs)
     ctx.info['transitions'] = m.transitions
     ctx.info['byte_classes'] = getattr(m, 'byte_classes', None)
-    ctx.floor('C07 reachable configurations', len(m.configs), 30)
+    ctx.floor('C07 reachable configurations', len(m.configs), 12)
     groups = {}
     for role, line, detail, cfgdesc, byte, wit in m.violations:
         groups.setdefault(role, []).append((line, detail, cfgdesc, byte, wit))
